@@ -132,6 +132,12 @@ func (e *Exec) siteMatches(ss *SiteSpec, ins ssa.Instruction) bool {
 		if f, ok := d.Call.Value.(*ssa.Function); ok {
 			return f.Name() == ss.Target || (f.Parent() != nil && e.v.closureName(f) == ss.Target)
 		}
+		// a deferred call of a function value held in a local variable: `defer removePeer()`
+		if u, ok := d.Call.Value.(*ssa.UnOp); ok {
+			if a, ok := u.X.(*ssa.Alloc); ok && a.Comment == ss.Target {
+				return true
+			}
+		}
 		return ss.Target == "*"
 	case "go":
 		g, ok := ins.(*ssa.Go)
